@@ -1,7 +1,7 @@
 (* Props/C10.v — property theorems only. *)
 From Coq Require Import List NArith ZArith Bool.
 From N0 Require Import Base.PyStr Base.PyVal Compare.Util Compare.Flags Compare.Match Compare.MatchProofs
-  Compare.Model Compare.Spec Compare.WalkLemmas Compare.VerdictProofs Compare.ReportProofs Compare.FilterProofs Compare.ExclReading Compare.OnlyStrProofs Compare.TransformTypesProofs.
+  Compare.Model Compare.Spec Compare.WalkLemmas Compare.VerdictProofs Compare.ReportProofs Compare.FilterProofs Compare.FilterMonoProofs Compare.ExclReading Compare.OnlyStrProofs Compare.TransformTypesProofs.
 Import ListNotations.
 
 (* One pattern matches an xpath iff the parts of the pattern after its last empty
@@ -130,3 +130,24 @@ Theorem C10_transform_pair_types :
   Ok (if only_ok o par pd then [if f_types fl then DiffType pd x y else NotEq p x y] else []).
 Proof. exact transform_pair_types. Qed.
 Print Assumptions C10_transform_pair_types.
+
+(* The filters only ever remove: whatever is reported under exclude_xpaths or
+   compare_only was reported without them (nothing is invented), the report does
+   not grow, and operands that compare equal without a filter compare equal with it. *)
+Theorem C10_exclude_only_removes :
+  forall fl only E tr m ck a b r,
+  walk_guard m a ->
+  compare_top fl (mk_opts only (PSeq []) tr) m ck a b = Ok r ->
+  exists r', compare_top fl (mk_opts only E tr) m ck a b = Ok r' /\
+             (forall e, In e r' -> In e r) /\ length r' <= length r /\ (r = [] -> r' = []).
+Proof. exact exclude_only_removes. Qed.
+Print Assumptions C10_exclude_only_removes.
+
+Theorem C10_compare_only_only_removes :
+  forall fl O excl tr m ck a b r,
+  pats_truthy O = true ->
+  compare_top fl (mk_opts (PSeq []) excl tr) m ck a b = Ok r ->
+  exists r', compare_top fl (mk_opts O excl tr) m ck a b = Ok r' /\
+             (forall e, In e r' -> In e r) /\ length r' <= length r /\ (r = [] -> r' = []).
+Proof. exact compare_only_only_removes. Qed.
+Print Assumptions C10_compare_only_only_removes.
